@@ -186,3 +186,24 @@ func ApproximateEntropyProto(x []bool, m int) (float64, float64) {
 	P := igamc(float64(int(1)<<uint(m-1)), V/2)
 	return P, P
 }
+
+// PokerTestBytes_alt1: for m = 8 the number of patterns N = 8 len(data)/8 is len(data); the byte loop may as well
+// run over the data itself.
+func PokerTestBytes_alt1(data []byte, m int) (float64, float64) {
+	if m != 4 && m != 8 {
+		return PokerProto(bitsOf(data), m)
+	}
+	hist := make([]int, 1<<uint(m))
+	N := 8 * len(data) / m
+	if m == 8 {
+		for i := 0; i < len(data); i++ {
+			hist[data[i]]++
+		}
+	} else {
+		for i := 0; i < len(data); i++ {
+			hist[data[i]>>4]++
+			hist[data[i]&15]++
+		}
+	}
+	return pokerTail(hist, N, m)
+}
